@@ -3,6 +3,7 @@ package harness
 import (
 	"bytes"
 	"fmt"
+	"path"
 	"strings"
 
 	"verif.local/sim/world"
@@ -35,7 +36,7 @@ func (c12) Describe() CheckInfo {
 		},
 		RealCode:       []string{"gopatch main()/mainCmd.Run, preview/printComments, patch.Parse/File.Apply, pkg/diff, x/tools/imports, internal/*"},
 		Stubs:          []string{"package os (simulated filesystem, streams, exit)", "path/filepath walk", "io/ioutil"},
-		RequiredProbes: []string{"agree-inplace-vs-print", "agree-diff-applied", "agree-api", "agree-verbose", "agree-refused-file", "description-on-stderr", "multi-file-print", "dry-fault-fired", "dry-kill", "dry-stdout-fail", "noncanonical-matched-file", "large-file", "agree-respelled-duplicate-arg", "agree-api-result-held", "agree-hard-linked-targets", "agree-name-near-name-max", "agree-diff-applied-crlf", "agree-diff-applied-no-final-newline", "agree-diff-shape-table", "agree-described-change-fails-to-replace", "agree-write-protected-target"},
+		RequiredProbes: []string{"agree-inplace-vs-print", "agree-diff-applied", "agree-api", "agree-verbose", "agree-refused-file", "description-on-stderr", "multi-file-print", "dry-fault-fired", "dry-kill", "dry-stdout-fail", "noncanonical-matched-file", "large-file", "agree-respelled-duplicate-arg", "agree-api-result-held", "agree-hard-linked-targets", "agree-name-near-name-max", "agree-diff-applied-crlf", "agree-diff-applied-no-final-newline", "agree-diff-shape-table", "agree-described-change-fails-to-replace", "agree-write-protected-target", "agree-good-and-failing-change-in-one-patch", "agree-target-in-sibling-directory"},
 	}
 }
 
@@ -183,6 +184,40 @@ func (c12) Gen(env *Env, seed uint64, tier string, i int) *Case {
 		c.AddFile(r.Pick([]string{"a_rewr.go", "mm_rewr.go", "zz_rewr.go"}), []byte("package sample\n\nfunc rewr() {\n\tc.conn.Close(vfIll)\n}\n"), "rewrite-error", nil, "")
 		c.Extra["described_rewrite_error"] = "1"
 	}
+	plainSoFar := true
+	for _, f := range c.Files {
+		if f.Role == "misfit" || f.Role == "rewrite-error" {
+			plainSoFar = false
+		}
+	}
+	if sub == "agree" && plainSoFar && r.Chance(1, 7) {
+		// ONE patch file whose changes both match one file: an ordinary rename and a
+		// change whose replacement cannot be built, in either order. Whatever the
+		// command does with that file, the library must say the same.
+		good := "# VFMARK-98-good\n@@\n@@\n-vfGoodOld\n+vfGoodNew\n"
+		ill := "@@\nvar f expression\n@@\n-f(vfIll)\n+f.f(vfIll)\n"
+		text := good + "\n" + ill
+		if r.Chance(1, 2) {
+			text = ill + "\n" + good
+		}
+		for _, p := range append([]PatchMeta(nil), c.Patches...) {
+			if p.Path != "stdin" {
+				c.DropFile(p.Path)
+			}
+		}
+		c.Patches = nil
+		c.AddPatch("two.patch", "p", []byte(text), []string{"VFMARK-98-good"}, nil)
+		for k := range c.Files {
+			if c.Files[k].Role == "match" {
+				c.Files[k].Role = "nomatch"
+				c.Files[k].Markers = nil
+			}
+		}
+		c.AddFile(r.Pick([]string{"a_both.go", "mm_both.go", "zz_both.go"}), []byte("package sample\n\nfunc both() {\n\tvfGoodOld()\n\tc.conn.Close(vfIll)\n\tvfGoodOld(3)\n}\n"), "rewrite-error", nil, "")
+		c.AddFile("m_good_only.go", []byte("package sample\n\nfunc g() {\n\tvfGoodOld()\n}\n"), "match", []string{"VFMARK-98-good"}, "canonical")
+		c.Flags.SkipImport, c.Flags.SkipGen = false, false
+		c.Extra["good_and_failing_change"] = "1"
+	}
 	if sub == "dry" {
 		switch r.Intn(3) {
 		case 0:
@@ -205,6 +240,32 @@ func (c12) Gen(env *Env, seed uint64, tier string, i int) *Case {
 			c.Targets = append(c.Targets, rel)
 		}
 	}
+	if r.Chance(1, 8) && len(all) > 0 {
+		// a target OUTSIDE the working directory, in a sibling directory whose name
+		// starts with the working directory's name, reached by a relative path
+		ch := all[r.Intn(len(all))]
+		var ms []string
+		if ch.Marker != "" {
+			ms = []string{ch.Marker}
+		}
+		sib := SimRoot + "/" + path.Base(ProjDir) + r.Pick([]string{"v2", "-old", "_test", ".bak"})
+		sp := sib + "/" + r.Pick([]string{"client.go", "pkg/client.go"})
+		c.SetNode(world.NodeSpec{Path: sp, Kind: "file", Data: MatchingFile(r, []Change{ch}, "canonical", "")})
+		c.Files = append(c.Files, FileMeta{Path: sp, Role: "match", Markers: ms, Note: "canonical"})
+		var tg []string
+		for _, f := range c.Files {
+			if f.Path == sp {
+				tg = append(tg, "../"+strings.TrimPrefix(sp, SimRoot+"/"))
+			} else {
+				tg = append(tg, strings.TrimPrefix(f.Path, ProjDir+"/"))
+			}
+		}
+		if r.Chance(1, 3) {
+			tg = []string{".", "../" + path.Base(sib)}
+		}
+		c.Targets = tg
+		c.Extra["sibling_dir_target"] = "1"
+	}
 	if r.Chance(1, 4) {
 		c.Spec.Knobs.StdinChunk = -8
 		c.Spec.Knobs.FileChunk = -128
@@ -214,6 +275,10 @@ func (c12) Gen(env *Env, seed uint64, tier string, i int) *Case {
 		// must still treat each file once
 		f := c.Files[r.Intn(len(c.Files))]
 		rel := strings.TrimPrefix(f.Path, ProjDir+"/")
+		if rel == f.Path {
+			// a target in a sibling directory
+			rel = "../" + strings.TrimPrefix(f.Path, SimRoot+"/")
+		}
 		c.Targets = append(c.Targets, r.Pick([]string{f.Path, rel, "./" + rel, ProjDir, ".", ProjDir + "/./" + rel}))
 		c.Extra["respelled_duplicate"] = "1"
 	}
@@ -255,7 +320,7 @@ func c12Agree(env *Env, c *Case) (vs []Violation) {
 	}
 	base := Flags{SkipImport: c.Flags.SkipImport, SkipGen: c.Flags.SkipGen}
 	init := c.InitialState()
-	orig := goFiles(init)
+	orig := goFilesAll(init)
 	rw := env.Run(withFlags(c, base))
 	fp := base
 	fp.Print = true
@@ -277,7 +342,7 @@ func c12Agree(env *Env, c *Case) (vs []Violation) {
 			return nil
 		}
 	}
-	final := goFiles(rw.Final)
+	final := goFilesAll(rw.Final)
 	sorted := c.SortedFiles()
 	// files whose rewrite in-place mode refused (reported and left untouched):
 	// every other mode must refuse them alike, i.e. emit nothing for them
@@ -294,6 +359,12 @@ func c12Agree(env *Env, c *Case) (vs []Violation) {
 		return nil
 	}
 	env.Seen(c12Key(c, "agree"))
+	if c.Extra["good_and_failing_change"] == "1" {
+		env.Probe("agree-good-and-failing-change-in-one-patch")
+	}
+	if c.Extra["sibling_dir_target"] == "1" {
+		env.Probe("agree-target-in-sibling-directory")
+	}
 	tag := "skipimp=" + fmt.Sprint(c.Flags.SkipImport)
 
 	// print-only == concatenation, in path order, of what in-place mode wrote
@@ -383,7 +454,7 @@ func c12Agree(env *Env, c *Case) (vs []Violation) {
 		}
 	}
 	// library API
-	if len(c.Patches) == 1 && !c.Flags.SkipImport && !c.Flags.SkipGen && len(failed) == 0 {
+	if len(c.Patches) == 1 && !c.Flags.SkipImport && !c.Flags.SkipGen {
 		ap, pres := ParseAPI(env.Prog, "p.patch", c.Patches[0].Data)
 		if ap != nil {
 			type heldRes struct {
@@ -484,7 +555,7 @@ func c12Agree(env *Env, c *Case) (vs []Violation) {
 	}
 	if rwv.Outcome == OutExit {
 		// with -v the files end up exactly as without it
-		fv2 := goFiles(rwv.Final)
+		fv2 := goFilesAll(rwv.Final)
 		for _, f := range sorted {
 			if !bytes.Equal(fv2[f.Path].Data, final[f.Path].Data) {
 				add("verbose", "in-place-bytes/"+tag, fmt.Sprintf("with -v the default mode leaves %s as %q, without -v as %q", f.Path, clip(string(fv2[f.Path].Data), 200), clip(string(final[f.Path].Data), 200)))
@@ -623,4 +694,16 @@ func c12Key(c *Case, fam string) string {
 	}
 	parts = append(parts, c.Flags.String())
 	return strings.Join(parts, "|")
+}
+
+// goFilesAll is goFiles without the restriction to the working directory's
+// tree: C12 also has targets in sibling directories.
+func goFilesAll(snap []world.FileState) map[string]world.FileState {
+	m := map[string]world.FileState{}
+	for _, f := range snap {
+		if f.Kind == world.KFile && strings.HasSuffix(f.Path, ".go") {
+			m[f.Path] = f
+		}
+	}
+	return m
 }
